@@ -472,6 +472,10 @@ FinalOK == pcm = "done" =>
               /\ \A w \in W : pcw[w] \in {"none", "exit"}
               /\ cvJob = {} /\ cvDone = {} /\ mutex = "free"
 
+\* sequential mode: a refresh by the 20% rule always comes before the candidates run out, so the
+\* "need more candidates" branch of the sequential loop (MSeqRefresh, MSeqNext2) is never taken
+SeqNextFindsJob == pcm = "s_next" => FreeIdx # {}
+
 Safety == AtMostOnce /\ BudgetOK /\ NoSameThreadConcurrent /\ ValueAtItsPoint /\ NoRace
           /\ FlagCoherent /\ ManagerCoherent /\ FinalOK
 
